@@ -313,7 +313,10 @@ Lemma inv_same s s' :
 Proof. unfold inv, bounded. intros -> -> -> ->. auto. Qed.
 
 Lemma broker_connector_gone t : t_broker (connector_gone t) = t_broker t.
-Proof. destruct t as [a b c d e f g h i j k]. unfold connector_gone. cbn. destruct b; reflexivity. Qed.
+Proof.
+  destruct t as [a b c d e f g h i j k r]. unfold connector_gone, connection_failed_forgets_first, errback_all. cbn.
+  destruct b; [reflexivity|]. cbn. destruct (r && negb (Nat.eqb i 0))%bool; reflexivity.
+Qed.
 
 Lemma set_tub_inv x t s : t_broker t = t_broker (tubof x s) -> inv s -> inv (set_tub x t s).
 Proof. intros E. apply inv_same; destruct x; cbn; auto. Qed.
@@ -325,12 +328,11 @@ Proof.
   apply set_tub_inv; [apply broker_connector_gone|exact H].
 Qed.
 
+Lemma broker_getref_tub t : t_broker (getref_tub t) = t_broker t.
+Proof. unfold getref_tub. destruct (t_broker t) eqn:E; [cbn; auto|]. destruct (t_connector t); cbn; auto. Qed.
+
 Lemma getref_inv x s : inv s -> inv (do_getref x s).
-Proof.
-  intros H. unfold do_getref. destruct (t_broker (tubof x s)) eqn:E.
-  - apply set_tub_inv; [cbn; auto|exact H].
-  - destruct (t_connector (tubof x s)); (apply set_tub_inv; [cbn; auto|exact H]).
-Qed.
+Proof. intros H. unfold do_getref. apply set_tub_inv; [apply broker_getref_tub|exact H]. Qed.
 
 Lemma dial_inv x s : inv s -> inv (do_dial x s).
 Proof.
@@ -563,7 +565,7 @@ Qed.
 
 Theorem step_inv s o : inv s -> inv (step s o).
 Proof.
-  intros H. destruct o as [x|x|c to|c x|c|x|x]; cbn [step].
+  intros H. destruct o as [x|x|c to|c x|c|x|x|x]; cbn [step]; [| | | | | | |apply set_tub_inv; [reflexivity|exact H]].
   - apply getref_inv, H.
   - apply dial_inv, H.
   - destruct to; destruct (Nat.ltb_spec c (nconn s)); try exact H; [apply deliver_m_inv|apply deliver_s_inv]; assumption.
@@ -639,16 +641,27 @@ Definition wgood (t : tub) : Prop :=
   t_issued t = t_fired t + t_waiters t.
 Definition winv (s : state) : Prop := wgood (tm s) /\ wgood (ts s).
 
+Lemma wgood_getref t : wgood t -> wgood (getref_tub t).
+Proof.
+  destruct t as [a b c d e f g h w fi is r]. unfold wgood, getref_tub. cbn. intros (H1 & H2 & H3).
+  destruct b; cbn; [repeat split; auto; lia|]. destruct g; cbn; repeat split; try congruence; try lia; try discriminate.
+Qed.
+
+(* uses the ORDER read from Tub.connectionFailed: the connector is forgotten before the errbacks run, so a lookup
+   issued from inside an errback starts a new connector *)
 Lemma wgood_gone t : wgood t -> wgood (connector_gone t).
 Proof.
-  destruct t as [a b c d e f g h w fi is]. unfold wgood, connector_gone. cbn. intros (H1 & H2 & H3).
-  destruct b; cbn; [|repeat split; try congruence; try lia].
-  assert (w = 0) by (apply H2; discriminate). subst. repeat split; auto; lia.
+  destruct t as [a b c d e f g h w fi is r]. intros H. unfold wgood in H. cbn in H. destruct H as (H1 & H2 & H3).
+  unfold connector_gone, connection_failed_forgets_first. cbn.
+  destruct b; cbn.
+  - assert (w = 0) by (apply H2; discriminate). subst. unfold wgood. cbn. repeat split; auto; lia.
+  - unfold errback_all. cbn. destruct (r && negb (Nat.eqb w 0))%bool;
+      unfold wgood; cbn; repeat split; try congruence; try discriminate; lia.
 Qed.
 Lemma wgood_attach t c : wgood t -> wgood (fire (set_broker (Some c) (set_connector None t))).
-Proof. destruct t as [a b c0 d e f g h w fi is]. unfold wgood. cbn. intros (H1 & H2 & H3). repeat split; auto; lia. Qed.
+Proof. destruct t as [a b c0 d e f g h w fi is r]. unfold wgood. cbn. intros (H1 & H2 & H3). repeat split; auto; lia. Qed.
 Lemma wgood_nobroker t : wgood t -> wgood (set_broker None t).
-Proof. destruct t as [a b c0 d e f g h w fi is]. unfold wgood. cbn. intros (H1 & H2 & H3). repeat split; auto; congruence. Qed.
+Proof. destruct t as [a b c0 d e f g h w fi is r]. unfold wgood. cbn. intros (H1 & H2 & H3). repeat split; auto; congruence. Qed.
 Lemma wgood_ext t t' :
   t_broker t' = t_broker t -> t_connector t' = t_connector t -> t_waiters t' = t_waiters t -> t_fired t' = t_fired t ->
   t_issued t' = t_issued t -> wgood t -> wgood t'.
@@ -726,18 +739,12 @@ Proof.
 Qed.
 
 Lemma winv_getref x s : winv s -> winv (do_getref x s).
-Proof.
-  intros H. pose proof (winv_tubof x s H) as (W1 & W2 & W3). unfold do_getref.
-  destruct (t_broker (tubof x s)) eqn:Eb.
-  - apply winv_set_tub; [exact H|]. unfold wgood. cbn [t_waiters t_connector t_broker t_issued t_fired]. repeat split; auto. lia.
-  - destruct (t_connector (tubof x s)) eqn:Ec; (apply winv_set_tub; [exact H|]); unfold wgood;
-      cbn [t_waiters t_connector t_broker t_issued t_fired];
-      repeat split; try congruence; try lia; try discriminate.
-Qed.
+Proof. intros H. unfold do_getref. apply winv_set_tub; [exact H|apply wgood_getref, winv_tubof, H]. Qed.
 
 Theorem step_winv s o : winv s -> winv (step s o).
 Proof.
-  intros H. destruct o as [x|x|c to|c x|c|x|x]; cbn [step].
+  intros H. destruct o as [x|x|c to|c x|c|x|x|x]; cbn [step];
+    [| | | | | | |apply winv_set_tub; [exact H|]; eapply wgood_ext; [| | | | |exact (winv_tubof x s H)]; reflexivity].
   - apply winv_getref, H.
   - unfold do_dial. destruct (t_connector (tubof x s)); exact H.
   - destruct to; destruct (Nat.ltb c (nconn s)); try exact H; [apply winv_deliver_m|apply winv_deliver_s]; exact H.
@@ -763,20 +770,67 @@ Proof.
   destruct (t_waiters (tubof x (run ops))) eqn:Ew; [reflexivity|]. exfalso. apply W1; [discriminate|exact E].
 Qed.
 
-(* whoever waits has a live connector, i.e. an armed CONNECTION_TIMEOUT timer; when it fires all are answered *)
-Theorem timeout_answers_all ops x :
-  (t_waiters (tubof x (run ops)) <> 0 -> t_connector (tubof x (run ops)) <> None) /\
-  t_waiters (tubof x (step (run ops) (Timeout x))) = 0.
+Lemma fired_gone t : wgood t -> t_connector t <> None ->
+  t_fired (connector_gone t) = t_fired t + t_waiters t.
 Proof.
-  pose proof (winv_tubof x _ (run_winv ops)) as W. split; [apply W|].
-  pose proof (step_winv _ (Timeout x) (run_winv ops)) as W'. cbn [step] in *. unfold do_timeout in *.
-  destruct (t_connector (tubof x (run ops))) eqn:Ec.
-  - set (s1 := map_conns (cancel x n) (run ops)) in *.
-    assert (Et : tubof x (set_tub x (connector_gone (tubof x s1)) s1) = connector_gone (tubof x s1)) by (destruct x; reflexivity).
-    rewrite Et. assert (W1 : wgood (tubof x s1)) by (destruct x; exact W).
-    destruct (tubof x s1) as [a b c d e f g h w fi is]. unfold connector_gone. cbn.
-    destruct b; cbn; [|reflexivity]. apply W1. cbn. discriminate.
-  - destruct W as (W1 & _). destruct (t_waiters (tubof x (run ops))); [reflexivity|]. exfalso. apply W1; [discriminate|exact Ec].
+  destruct t as [a b c d e f g h w fi is r]. unfold connector_gone, connection_failed_forgets_first, errback_all, wgood. cbn.
+  intros (H1 & H2 & H3) _. destruct b; cbn.
+  - assert (w = 0) by (apply H2; discriminate). lia.
+  - destruct (r && negb (Nat.eqb w 0))%bool; reflexivity.
+Qed.
+
+(* whoever waits has a live connector, i.e. an armed CONNECTION_TIMEOUT timer; when it fires, every lookup that was
+   waiting is answered (fired grows by exactly the number of waiters) -- and a lookup issued synchronously from inside
+   one of those errbacks (an instant retry) again has a live connector of its own *)
+Theorem timeout_answers_all ops x :
+  let s := run ops in let s' := step s (Timeout x) in
+  (t_waiters (tubof x s) <> 0 -> t_connector (tubof x s) <> None) /\
+  t_fired (tubof x s') = t_fired (tubof x s) + t_waiters (tubof x s) /\
+  (t_waiters (tubof x s') <> 0 -> t_connector (tubof x s') <> None) /\
+  (t_retry (tubof x s) = false -> t_waiters (tubof x s') = 0).
+Proof.
+  cbv zeta. pose proof (winv_tubof x _ (run_winv ops)) as W.
+  pose proof (winv_tubof x _ (step_winv _ (Timeout x) (run_winv ops))) as W'.
+  split; [apply W|]. split; [|split; [apply W'|]].
+  - cbn [step]. unfold do_timeout. destruct (t_connector (tubof x (run ops))) eqn:Ec.
+    + set (s1 := map_conns (cancel x n) (run ops)).
+      assert (Et : tubof x (set_tub x (connector_gone (tubof x s1)) s1) = connector_gone (tubof x s1)) by (destruct x; reflexivity).
+      rewrite Et. assert (E1 : tubof x s1 = tubof x (run ops)) by (destruct x; reflexivity). rewrite E1.
+      apply fired_gone; [exact W|congruence].
+    + destruct W as (W1 & _). destruct (t_waiters (tubof x (run ops))); [lia|]. exfalso. apply W1; [discriminate|exact Ec].
+  - intros Hr. cbn [step]. unfold do_timeout. destruct (t_connector (tubof x (run ops))) eqn:Ec.
+    + set (s1 := map_conns (cancel x n) (run ops)).
+      assert (Et : tubof x (set_tub x (connector_gone (tubof x s1)) s1) = connector_gone (tubof x s1)) by (destruct x; reflexivity).
+      rewrite Et. assert (E1 : tubof x s1 = tubof x (run ops)) by (destruct x; reflexivity). rewrite E1.
+      destruct (tubof x (run ops)) as [a b c d e f g h w fi is r]. cbn in Hr. subst r.
+      unfold connector_gone, connection_failed_forgets_first, errback_all. cbn. destruct b; cbn; [|reflexivity].
+      apply W. cbn. discriminate.
+    + destruct W as (W1 & _). destruct (t_waiters (tubof x (run ops))); [reflexivity|]. exfalso. apply W1; [discriminate|exact Ec].
+Qed.
+
+(* the instant retry: a lookup fails at the time-out, its errback looks the Tub up again at once; the new lookup waits
+   on a NEW connector and is answered by that connector's own time-out *)
+Example retry_from_errback :
+  let s := run [GetRef TM; DialHint TM; ArmRetry TM; Timeout TM] in
+  t_fired (tm s) = 1 /\ t_waiters (tm s) = 1 /\ t_connector (tm s) = Some 1 /\ t_issued (tm s) = 2 /\
+  t_waiters (tm (step s (Timeout TM))) = 0 /\ t_fired (tm (step s (Timeout TM))) = 2.
+Proof. vm_compute. auto 10. Qed.
+
+(* ------------------------------------------------------------------------------------------ *)
+(* 6. the non-master records the connection it accepts, whoever dialled it                     *)
+
+Lemma slave_attach t c : t_slave (fire (set_broker (Some c) (set_connector None t))) = t_slave t.
+Proof. reflexivity. Qed.
+
+(* uses slave_table_recorded_always, read from acceptDecisionVersion1 *)
+Lemma slave_records_decision c s i q rest :
+  Nat.ltb c (nconn s) = true -> c_qms (conns s c) = Decision i q :: rest -> c_s (conns s c) = EDec ->
+  t_slave (ts (step s (Deliver c TS))) = Some (i, q) /\ t_broker (ts (step s (Deliver c TS))) = Some c.
+Proof.
+  intros Hc Eq Es. cbn [step]. rewrite Hc. unfold deliver_s. rewrite Eq, Es. unfold attach.
+  cbn [tubof ts set_tub]. unfold slave_table_recorded_always. cbn [orb].
+  match goal with |- context [if ?b then _ else _] => destruct b end;
+    try (match goal with |- context [match ?o with Some _ => _ | None => _ end] => destruct o end); cbn; auto.
 Qed.
 
 (* no lookup is lost or answered twice (counts): made = answered + still waiting; none waits while connected *)
